@@ -23,6 +23,98 @@ impl FileByteSource for Src {
     }
 }
 
+// Several threads on one shared cache ("ccmt" mode).  Case tokens: F / Z / T as above, R <rounds>, then per thread "X" followed by its A / U calls.
+// Every round builds a fresh cache and releases all threads from a barrier; each thread makes its calls in order.  Outcome: per thread (separated
+// by " / ") one token per call: the outcome of round 0, replaced by the first W (wrong bytes) or P (panic) seen in any round, or by D when rounds disagree otherwise.
+pub fn run_mt(toks: &[&str]) -> String {
+    let mut i = 0;
+    let mut data: Vec<u8> = Vec::new();
+    let mut rounds = 1usize;
+    let mut threads: Vec<Vec<(char, u64, u64, u64)>> = Vec::new();
+    while i < toks.len() {
+        match toks[i] {
+            "F" => {
+                let n: usize = toks[i + 1].parse().unwrap();
+                data = (0..n).map(|k| 1 + (k % 7) as u8).collect();
+                i += 2;
+            }
+            "Z" | "T" => {
+                let p: usize = toks[i + 1].parse().unwrap();
+                if p < data.len() {
+                    data[p] = if toks[i] == "Z" { 0 } else { 10 };
+                }
+                i += 2;
+            }
+            "R" => {
+                rounds = toks[i + 1].parse().unwrap();
+                i += 2;
+            }
+            "X" => {
+                threads.push(Vec::new());
+                i += 1;
+            }
+            "A" => {
+                threads.last_mut().unwrap().push(('A', toks[i + 1].parse().unwrap(), toks[i + 2].parse().unwrap(), 0));
+                i += 3;
+            }
+            "U" => {
+                threads.last_mut().unwrap().push(('U', toks[i + 1].parse().unwrap(), toks[i + 2].parse().unwrap(), toks[i + 3].parse().unwrap()));
+                i += 4;
+            }
+            t => panic!("bad token {t}"),
+        }
+    }
+    let data = Arc::new(data);
+    let mut result: Vec<Vec<String>> = Vec::new();
+    for round in 0..rounds {
+        let log = Arc::new(Mutex::new(Vec::new()));
+        let fc = Arc::new(FileContentsWithChunkedCaching::new(data.len() as u64, Src { data: data.clone(), log: log.clone() }));
+        let barrier = Arc::new(std::sync::Barrier::new(threads.len().max(1)));
+        let handles: Vec<_> = threads
+            .iter()
+            .cloned()
+            .map(|ops| {
+                let (fc, data, barrier) = (fc.clone(), data.clone(), barrier.clone());
+                std::thread::spawn(move || {
+                    barrier.wait();
+                    ops.into_iter()
+                        .map(|(k, a, b, d)| {
+                            let r = catch_unwind(AssertUnwindSafe(|| {
+                                let res = if k == 'A' { fc.read_bytes_at(a, b) } else { fc.read_bytes_at_until(a..b, d as u8) };
+                                match res {
+                                    Ok(bytes) => {
+                                        let start = a as usize;
+                                        let exact = start.checked_add(bytes.len()).map_or(false, |e| e <= data.len() && &data[start..e] == bytes) || bytes.is_empty();
+                                        format!("{}{}", if exact { "K" } else { "W" }, bytes.len())
+                                    }
+                                    Err(_) => "E".to_string(),
+                                }
+                            }));
+                            r.unwrap_or_else(|_| "P".to_string())
+                        })
+                        .collect::<Vec<String>>()
+                })
+            })
+            .collect();
+        let outs: Vec<Vec<String>> = handles.into_iter().map(|h| h.join().unwrap_or_else(|_| vec!["P".to_string()])).collect();
+        if round == 0 {
+            result = outs;
+        } else {
+            for (t, o) in outs.into_iter().enumerate() {
+                for (k, tok) in o.into_iter().enumerate() {
+                    let cur = &result[t][k];
+                    let cur_bad = cur.starts_with('W') || cur.starts_with('P');
+                    if !cur_bad && *cur != tok {
+                        // D = the outcome of one and the same call differs between rounds
+                        result[t][k] = if tok.starts_with('W') || tok.starts_with('P') { tok } else { "D".to_string() };
+                    }
+                }
+            }
+        }
+    }
+    result.iter().map(|o| o.join(" ")).collect::<Vec<_>>().join(" / ")
+}
+
 pub fn run(toks: &[&str]) -> String {
     let mut i = 0;
     let mut data: Vec<u8> = Vec::new();
